@@ -102,6 +102,28 @@ def scan_enums(root):
                 add_enum(m.group(1), vs)
 
 STD_TRAITS = set("Clone Copy PartialEq Eq PartialOrd Ord Hash Debug Display ToTokens IntoIterator Iterator DoubleEndedIterator ExactSizeIterator Default From Into TryFrom TryInto AsRef AsMut Borrow BorrowMut Deref DerefMut ToString ToOwned Fn FnMut FnOnce Extend FromIterator Index IndexMut Add Sub Not Neg Drop Spanned Write Try FromResidual".split())
+GENERIC_FNS = {}   # fn name (last segment) -> list of declared type parameter names (scanned from the sources)
+def scan_generic_fns(root):
+    for dp, dn, fnames in os.walk(root):
+        for f in fnames:
+            if not f.endswith(".rs") or "/tests" in dp: continue
+            src = open(os.path.join(dp, f)).read()
+            src = re.sub(r"//[^\n]*", "", src)
+            for m in re.finditer(r"\bfn\s+(\w+)\s*<", src):
+                i = m.end(); d = 1; j = i
+                while j < len(src) and d > 0:
+                    if src[j] == "<": d += 1
+                    elif src[j] == ">" and src[j-1] != "-": d -= 1
+                    j += 1
+                params = []; depth = 0; cur = ""
+                for c in src[i:j-1] + ",":
+                    if c in "<([": depth += 1
+                    if c in ">)]": depth -= 1
+                    if c == "," and depth == 0:
+                        p = cur.strip(); cur = ""
+                        if p and not p.startswith("'") and not p.startswith("const "): params.append(re.split(r"[:=\s]", p)[0])
+                    else: cur += c
+                if params: GENERIC_FNS[m.group(1)] = params
 class Panic(Exception): pass
 class Infeasible(Exception): pass
 class Unmodelled(Exception): pass
@@ -155,11 +177,14 @@ def deepcopy_val(v):
     return v
 
 MODELS = []
+_STD_MOD = re.compile(r"(?<![\w:])(?:std|core|alloc)::(?:\w+::)*(?=[A-Z])")
 def name_variants(n):
     out = [n]
     m = re.match(r"^(core|std|alloc)::(.*)$", n)
     if m: out.append(m.group(2))
     else: out += ["core::" + n, "std::" + n]
+    s = _STD_MOD.sub("", n)          # `std::vec::Vec::x` / `<std::string::String as From<char>>::from` -> the short names most models use
+    if s != n: out.append(s)
     return out
 def find_models(n):
     """all models matching the callee name (or a variant with/without the crate prefix), in registration order"""
@@ -182,8 +207,8 @@ def model(pattern):
     return deco
 
 class Frame:
-    __slots__ = ("fn", "locals")
-    def __init__(self, fn): self.fn = fn; self.locals = {}
+    __slots__ = ("fn", "locals", "tysubst")
+    def __init__(self, fn): self.fn = fn; self.locals = {}; self.tysubst = None
 
 class Engine:
     def __init__(self, fns, src_root):
